@@ -14,6 +14,7 @@ import (
 	"runtime/debug"
 	"sort"
 	"sync"
+	"syscall"
 )
 
 // Violation is one refuting observation.
@@ -67,6 +68,8 @@ type W struct {
 	nSamples int
 	maxSamp  int
 	caseNo   int
+	seq      uint32 // journal entry number (0 = idle)
+	cpuBegin int64  // process CPU time (ns) when the entry in flight began
 }
 
 const maxRecordedViolations = 40
@@ -138,8 +141,13 @@ func (w *W) Begin(caseID, input string) {
 	if len(input) > 1<<20 {
 		input = input[:1<<20]
 	}
+	w.seq++
+	if w.seq == 0 {
+		w.seq = 1
+	}
+	w.cpuBegin = processCPU()
 	buf := make([]byte, 0, 16+len(caseID)+len(input))
-	buf = binary.LittleEndian.AppendUint32(buf, 1) // in flight
+	buf = binary.LittleEndian.AppendUint32(buf, w.seq) // in flight: the entry's number
 	buf = binary.LittleEndian.AppendUint32(buf, uint32(len(caseID)))
 	buf = binary.LittleEndian.AppendUint32(buf, uint32(len(input)))
 	buf = append(buf, caseID...)
@@ -153,6 +161,21 @@ func (w *W) End() {
 	defer w.mu.Unlock()
 	var b [4]byte
 	w.journal.WriteAt(b[:], 0)
+	if w.cpuBegin > 0 {
+		if ms := (processCPU() - w.cpuBegin) / 1e6; ms > w.sum.Maxes["max_cpu_milliseconds_of_one_journalled_entry"] {
+			w.sum.Maxes["max_cpu_milliseconds_of_one_journalled_entry"] = ms
+		}
+		w.cpuBegin = 0
+	}
+}
+
+// processCPU is the CPU time (user+system, all threads) this process has consumed, in nanoseconds.
+func processCPU() int64 {
+	var ru syscall.Rusage
+	if syscall.Getrusage(syscall.RUSAGE_SELF, &ru) != nil {
+		return 0
+	}
+	return ru.Utime.Nano() + ru.Stime.Nano()
 }
 
 // ReadJournal returns the case in flight recorded in a journal file, if any.
@@ -161,7 +184,7 @@ func ReadJournal(path string) (caseID, input string, inFlight bool) {
 	if err != nil || len(b) < 12 {
 		return "", "", false
 	}
-	if binary.LittleEndian.Uint32(b[0:4]) != 1 {
+	if binary.LittleEndian.Uint32(b[0:4]) == 0 {
 		return "", "", false
 	}
 	nc := int(binary.LittleEndian.Uint32(b[4:8]))
@@ -170,6 +193,20 @@ func ReadJournal(path string) (caseID, input string, inFlight bool) {
 		return "", "", false
 	}
 	return string(b[12 : 12+nc]), string(b[12+nc : 12+nc+ni]), true
+}
+
+// JournalSeq returns the number of the journal entry in flight (0 = idle or unreadable).
+func JournalSeq(path string) uint32 {
+	f, err := os.Open(path)
+	if err != nil {
+		return 0
+	}
+	defer f.Close()
+	var b [4]byte
+	if _, err := f.ReadAt(b[:], 0); err != nil {
+		return 0
+	}
+	return binary.LittleEndian.Uint32(b[:])
 }
 
 // Eval counts one judged execution. hash identifies the input for distinct counting;
